@@ -43,3 +43,31 @@ Proof.
   replace (in_ty i32 (c + 32)) with true; [reflexivity|].
   symmetry. unfold in_ty. change (imin i32) with (-2147483648). change (imax i32) with 2147483647. lia.
 Qed.
+
+(** * the overflow checkers' call operators (coq/Gen/Gen_strconv.v, regenerated from
+      include/etl/_strings/to_integer.hpp for the eight instantiations signed/unsigned char .. long):
+      given the two members computed by the constructor, [would_overflow_m] is the regenerated term *)
+From Tetl Require Gen.Gen_strconv.
+Module S := Gen_strconv.
+
+Theorem gen_signed_checker_eq : forall t q r value digit, sgn t = true ->
+  S.sck_i8_g value digit q r = Some (would_overflow_m t (q, r) value digit)
+  /\ S.sck_i16_g value digit q r = Some (would_overflow_m t (q, r) value digit)
+  /\ S.sck_i32_g value digit q r = Some (would_overflow_m t (q, r) value digit)
+  /\ S.sck_i64_g value digit q r = Some (would_overflow_m t (q, r) value digit).
+Proof.
+  intros t q r value digit Hs.
+  unfold S.sck_i8_g, S.sck_i16_g, S.sck_i32_g, S.sck_i64_g, would_overflow_m. rewrite Hs. cbn [fst snd].
+  repeat split; reflexivity.
+Qed.
+
+Theorem gen_unsigned_checker_eq : forall t q r value digit, sgn t = false ->
+  S.uck_u8_g value digit q r = Some (would_overflow_m t (q, r) value digit)
+  /\ S.uck_u16_g value digit q r = Some (would_overflow_m t (q, r) value digit)
+  /\ S.uck_u32_g value digit q r = Some (would_overflow_m t (q, r) value digit)
+  /\ S.uck_u64_g value digit q r = Some (would_overflow_m t (q, r) value digit).
+Proof.
+  intros t q r value digit Hs.
+  unfold S.uck_u8_g, S.uck_u16_g, S.uck_u32_g, S.uck_u64_g, would_overflow_m. rewrite Hs. cbn [fst snd].
+  repeat split; reflexivity.
+Qed.
